@@ -11,6 +11,7 @@ const { cfg } = require('../lib/configs')
 const { SETS } = require('../lib/cfgset')
 const { Rng, hashStr, clip, chunk } = require('../lib/util')
 const { dstMap } = require('../lib/configs')
+const G = require('../lib/gen_hostile')
 
 // the package wrapper (main.js NonCacheRewriter.rewrite) applied to a native response: real file, real code path
 function loadWrapper () {
@@ -75,8 +76,8 @@ function noInstrumentableOp (ast, config) {
 
 function check (job, resp, prefix, wrapper) {
   const violations = []
-  const sigBase = job.meta.noop ? `noop:${job.meta.noop}` : (job.meta.placement ? `catalog:${job.meta.placement}:${job.meta.form}` : job.meta.kind === 'corpus' ? 'corpus' : 'random')
-  const push = (kind, what, extra) => violations.push({ sig: `${sigBase}:${kind}`, what, witness: Object.assign({ code: job.code, config: job.config, cfgName: job.cfgName, meta: job.meta, file: job.file }, extra || {}) })
+  const sigBase = job.meta.mapref ? `mapref:${job.meta.mapref.r}:${job.meta.mapref.entry}` : job.meta.noop ? `noop:${job.meta.noop}` : (job.meta.placement ? `catalog:${job.meta.placement}:${job.meta.form}` : job.meta.kind === 'corpus' ? 'corpus' : 'random')
+  const push = (kind, what, extra) => violations.push({ sig: `${sigBase}:${kind}`, what, witness: Object.assign({ code: job.code, config: job.config, cfgName: job.cfgName, meta: job.meta, file: job.file, reader: job.reader }, extra || {}) })
   const k = kind(resp)
   const out = { k, hooks: 0 }
   if (k !== 'ok-modified' && k !== 'ok-notmodified') return { out, violations }
@@ -92,7 +93,7 @@ function check (job, resp, prefix, wrapper) {
     // prediction: at least one required operation => must be modified (C04 reports the detail)
     const r = analyze(job, resp, prefix)
     // canonical witnesses of recorded findings (C04 owns them: D19, D26) are not re-judged here
-    if (r.required > 0 && !(r.requiredNodes[0].__req.applyNonLiteralList) && !job.meta.known) push('required-but-notmodified', `policy requires ${r.required} hook(s) but the file was reported not modified`)
+    if (r.required > 0 && !(r.requiredNodes[0].__req.applyNonLiteralList) && !job.meta.known && !job.meta.mapref) push('required-but-notmodified', `policy requires ${r.required} hook(s) but the file was reported not modified`)
     out.required = r.required
   } else {
     if (viaPkg.content !== ok.content) push('wrapper-altered-modified', 'package wrapper altered a modified result')
@@ -124,12 +125,14 @@ const EMPTY_CFGS = { NO_METHODS: cfg({ plus: false, tpl: false, methods: [] }), 
 module.exports = {
   id: 'C12',
   level: 'exploration',
-  rule: 'status/content consistency monitor on every response: notmodified => empty native content/code/map and the real main.js wrapper returns the input byte for byte; modified => >= 1 hook call site (census), prologue present, exactly one decodable trailer; status vs policy prediction in the two unambiguous directions. Workload: 24 hand-picked unmodified-looking inputs (literal sums, excluded positions, normalised arrows/optional chains, BOM/CRLF/hashbang/non-ASCII/empty/large) x all configurations, corpus/catalogue/random programs under instrumenting and non-instrumenting configurations. distinct_nontrivial = distinct (input, config) pairs decided.',
+  rule: 'status/content consistency monitor on every response: notmodified => empty native content/code/map and the real main.js wrapper returns the input byte for byte; modified => >= 1 hook call site (census), prologue present, exactly one decodable trailer; status vs policy prediction in the two unambiguous directions. Workload: 24 hand-picked unmodified-looking inputs (literal sums, excluded positions, normalised arrows/optional chains, BOM/CRLF/hashbang/non-ASCII/empty/large) x all configurations, corpus/catalogue/random programs under instrumenting and non-instrumenting configurations (corpus slice also with CRLF line endings), and modified / unmodified programs carrying a sourceMappingURL reference of every kind and reader outcome (usable, broken, unreadable, oversized, hostile text) x chaining on/off x comments on/off. distinct_nontrivial = distinct (input, config) pairs decided.',
   assumptions: ['the package wrapper is exercised through the real /repo/main.js with the native module replaced by a shim returning the harness response'],
   plan (ctx) {
     const shards = [{ kind: 'noop' }]
     for (const s of structPlan(ctx, { quickCorpus: 300, cfgNames: Object.keys(SETS), exec: { quickRandom: 1500, quickFormsPerPlacement: 8 } })) shards.push(s)
     for (const s of structPlan(ctx, { quickCorpus: 150, generated: true, exec: { quickRandom: 600, quickFormsPerPlacement: 3, includeKnown: false } })) shards.push(Object.assign({ emptyCfg: true }, s))
+    // the same consistency under source-map references of every kind (usable, broken, unreadable...) x chaining x comments
+    for (let k = 0; k < (ctx.tier === 'thorough' ? 60 : 6); k++) shards.push({ kind: 'mapref', stream: k, count: 120 })
     return shards
   },
   minEvaluations () { return 300 },
@@ -139,6 +142,20 @@ module.exports = {
       js = []
       const all = Object.assign({}, SETS, EMPTY_CFGS)
       for (const [name, code] of NOOP_INPUTS) for (const [cn, c] of Object.entries(all)) js.push({ code, file: '/srv/noop/' + name + '.js', meta: { noop: name, sigBase: 'noop:' + name }, config: c, cfgKey: cn, cfgName: cn })
+    } else if (spec.kind === 'mapref') {
+      const rng = new Rng(ctx.seed, 'c12mapref', spec.stream)
+      const base = structJobs({ kind: 'random', count: 40, stream: 900 + spec.stream, cfgNames: ['FULL'] }, ctx)
+      js = []
+      for (let i = 0; i < spec.count; i++) {
+        const r = rng.fork(i)
+        const noop = r.bool(0.25) ? r.pick(NOOP_INPUTS.filter(x => !['empty', 'large-unmodified'].includes(x[0]))) : null
+        const b = noop ? { code: noop[1], meta: { noop: noop[0] } } : r.pick(base)
+        const file = r.pick(['/srv/app/dist/gen.js', '/srv/app/x.js', 'x.js', '/x.js'])
+        const ref = G.mapReference(r, file)
+        const chain = r.bool(0.7); const comments = r.bool(0.4)
+        const cn = `mapref:c${+chain}${+comments}`
+        js.push({ code: b.code.replace(/\n*$/, '\n') + ref.comment.replace(/^\n/, ''), file, reader: ref.reader, meta: Object.assign({}, b.meta, { sigBase: 'mapref', mapref: ref.kind, known: false }), config: Object.assign({}, SETS.FULL, { chainSourceMap: chain, comments }), cfgKey: cn, cfgName: cn })
+      }
     } else {
       js = structJobs(spec, ctx)
       if (spec.emptyCfg) js = js.map((j, i) => { const cn = i % 2 ? 'NO_METHODS' : 'OMITTED_METHODS'; return Object.assign({}, j, { config: EMPTY_CFGS[cn], cfgKey: cn, cfgName: cn, meta: Object.assign({}, j.meta, { emptyCfg: true }) }) })
@@ -162,7 +179,7 @@ module.exports = {
     return rep
   },
   async replay (w) {
-    const job = { code: w.code, meta: w.meta, config: w.config, cfgName: w.cfgName, file: w.file }
+    const job = { code: w.code, meta: w.meta, config: w.config, cfgName: w.cfgName, file: w.file, reader: w.reader }
     const { responses, prefixes } = rewriteJobs([Object.assign({ cfgKey: 'replay' }, job)])
     return { violations: check(job, responses[0], prefixes[0], loadWrapper()).violations }
   },
